@@ -303,7 +303,12 @@ class UserOp(Operation):
         self._init_op(list(operands), [], [])
 
 
+G_MOVE = {}
+
+
 MOVE_SHAPES = [dict(outer=o, inner=i, pos=p) for o in (0, 1) for i in (0, 1) for p in (0, 1)] + [dict(outer=0, inner=None, pos=0), dict(outer=1, inner=None, pos=1)]
+# the subview's dynamic size is an affine.min (the last tile of a dimension that the tile size does not divide is smaller)
+MOVE_SHAPES += [dict(outer=p, inner="min", pos=p) for p in (0, 1)]
 
 
 @contract
@@ -331,7 +336,20 @@ class MoveMemrefDims_contract:
         sizes = []
         rt = [4, 4]
         d_in = None
-        if sh["inner"] is not None:
+        mn = None
+        if sh["inner"] == "min":
+            # %m = affine.min (d0)[s0] -> (8, s0 - d0) (%i, %N): tile size 8, or what is left of the dimension
+            from xdsl.dialects import affine as _affine
+            from xdsl.ir.affine import AffineConstantExpr, AffineDimExpr, AffineMap, AffineSymExpr
+            nval = mk_opresult(sym.int("N", 1), IndexType())
+            body.args[0].den = sym.int("I", 0)
+            mn = _affine.MinOp([body.args[0], nval], AffineMap(1, 1, (AffineConstantExpr(8), AffineSymExpr(0) - AffineDimExpr(0))))
+            other = UserOp([mn.results[0]])
+            ops = [mn, other]
+            static_sizes[sh["pos"]] = DYNAMIC_INDEX
+            sizes = [mn.results[0]]
+            rt[sh["pos"]] = den(mn.results[0])
+        elif sh["inner"] is not None:
             d_in = _memref.DimOp(A, c[sh["inner"]].results[0])
             other = UserOp([d_in.results[0]])
             ops = [d_in, other]
@@ -350,6 +368,12 @@ class MoveMemrefDims_contract:
             fb.add_op(o)
         Region([fb])
         x.results[0].uses.append(Use(alloc, 0))
+        if mn is not None:
+            mn.results[0].uses.append(Use(other, 0))
+            mn.results[0].uses.append(Use(sv, 1))
+            G_MOVE["min"] = mn
+        else:
+            G_MOVE["min"] = None
         if d_in is not None:
             d_in.results[0].uses.append(Use(other, 0))
             d_in.results[0].uses.append(Use(sv, 1))
@@ -367,6 +391,12 @@ class MoveMemrefDims_contract:
             check("left alone: nothing is inserted either", not any(e[0] == "insert_op" for e in ret))
             return
         v = rep[0]
+        if sh["inner"] == "min":
+            check("a dim of a tile whose size is an affine.min (full tile, or the smaller last one): the hoisted size is an UPPER bound of it, for every iteration", den(v) >= den(x.results[0]))
+            mn = G_MOVE["min"]
+            check("... and the affine.min itself keeps its other readers (the subview that cuts the tile, the kernel working on it): the last tile stays the smaller one",
+                  getattr(mn.results[0], "replaced", None) is None)
+            return
         check("the value that replaces the dim denotes the same run-time extent, for every run-time shape", den(v) == den(x.results[0]))
         o = v.owner
         inserted_before_loop = any(e[0] == "insert_op" and e[2].kind == "before" and e[2].anchor is loop and any(q is o for q in e[1]) for e in ret)
@@ -499,7 +529,7 @@ class LoopHoistPureOperations_contract:
 from xdsl.ir import Use  # noqa: E402
 
 
-class UserOp(Operation):
+class IvReader(Operation):
     """any op of the parent body that reads the parent's induction variable"""
 
     def __init__(self, operands):
@@ -526,7 +556,7 @@ class MergeForLoops_prior_users_contract:
         c = const(sym.int("c", 1))
         users = []
         for kind in sh["users"]:
-            users.append(arith.DivUIOp(iv, c) if kind == "div" else (arith.RemUIOp(iv, c) if kind == "rem" else UserOp([iv])))
+            users.append(arith.DivUIOp(iv, c) if kind == "div" else (arith.RemUIOp(iv, c) if kind == "rem" else IvReader([iv])))
         for o in [c] + users + [inner, scf.YieldOp()]:
             blk.add_op(o)
         parent = scf.ForOp(const(0), const(ub_p), const(1), [], Region([blk]))
